@@ -1,6 +1,6 @@
 import PySMT.Proofs.C09Round
 import PySMT.Proofs.C09FragDag
-import PySMT.Proofs.C09RotDag
+import PySMT.Proofs.C09RotDag2
 /-!
 # C09: print → parse returns the very same formula (DAG printer, quantifier-free formulas)
 
@@ -12,12 +12,12 @@ open PySMT PySMT.Parser PySMT.Std PySMT.Sexp PySMT.Printer
 
 theorem parse_printDag_id (env : SEnv) (ρ : List (String × Sym)) (Γ : PEnv) (hc : Corr env [] Γ) (hm : MgrLe Γ.mgr ρ)
     (hdf : defFree env) (t : Term) (hP : Printable env [] t = true) (hq : noQuant t = true)
-    (hnr : noRot t = true) (hQ : parseOK env ρ t = true) (hN : mgrNormal t = true) :
+    (hQ : parseOK env ρ t = true) (hN : mgrNormal t = true) :
     readTerm Γ (toSexpDag t) = .ok (unfoldAVw false t) := by
   have hstd : readStd env [] (toSexpDag t) = .ok (unfoldAVw false t) := by
     simp only [readStd, Printer.readStd_toSexpDag env t (dagOK_of_printable' env t hP hq), Except.map]
   have hfrag := fragS_toSexpDag env ρ hdf t hP hq hQ
-  have h := (readTerm_agree env ρ Γ hc hm (toSexpDag t) hfrag (rotOK_toSexpDag env t hP hq hnr) _ hstd).1
+  have h := (readTerm_agree env ρ Γ hc hm (toSexpDag t) hfrag (rotOK_toSexpDag_full env t hP hq) _ hstd).1
   rw [mkNorm_of_normal _ (mgrNormal_unfold env false t [] hP hN)] at h
   exact h
 
